@@ -499,12 +499,13 @@ def termsWithinBase (lex : List (List Nat)) (w : List Nat) (d p : Nat) : Except 
 /-! ## query/terms.py -/
 
 /-- `MultiTerm.matcher` on one segment, given the expansion `terms` (`_btexts`):
-    `qs = [Term(fieldname, word) for word in self._btexts(reader) if word]` - empty words are
-    falsy and dropped - and the matcher is the union of the term matchers: the documents of the
+    `qs = [Term(fieldname, word) for word in self._btexts(reader)]` (the `if word` filter that
+    dropped the falsy empty term was repaired: "fix: MultiTerm.matcher no longer skips the empty
+    term") and the matcher is the union of the term matchers: the documents of the
     segment (numbered in order; a document is the list of its terms in the field) that contain
     one of the kept terms. -/
 def fuzzyDocsOf (docs : List (List (List Nat))) (terms : List (List Nat)) : List Nat :=
-  let qs := terms.filter fun t => !t.isEmpty
+  let qs := terms
   (docs.zipIdx.filter fun x => x.1.any fun t => qs.contains t).map (·.2)
 
 /-- `FuzzyTerm(field, w, maxdist=d, prefixlength=p)` searched on one segment: `_btexts` is
